@@ -11,6 +11,10 @@ C. failing-input search (independent of the model): stdout, attributed to source
    token in every message, must be in the order of the Coq spec `merge` (evaluated by
    coqc on the observed order) and byte-equal to the rendering of an independent python
    k-way merge; every run must end in time with exit status 0.
+P. whole invocations (work package H): random invocations with decoration options, a window,
+   --blocksz, --summary; stdout AND summary totals vs Program.program_spec (Coq, C) and an
+   independent python rendering; for a sample also vs Program.program_m at that block size under
+   the schedule recorded by hook H1 (B).  See whole_invocation_stage below.
 """
 import json, os, shutil
 import vlib
@@ -66,6 +70,138 @@ def save_failure(ctx, inp, res, exp_bytes, n):
     return mu.save_failure(PROP, ctx.seed, inp, res["plan"], exp_bytes, n)
 
 
+def whole_invocation_stage(ctx, scratch, quick):
+    """C + B for the composed program (Model/Program.v, Props C01_program_correct):
+    C  real binary vs the SPEC `program_spec` evaluated by vm_compute (Corr/C01p.spec_bad): stdout
+       bytes and the summary totals (Printed bytes / lines / syslines, first / last printed);
+       the python rendering `mu.prog_expected` is a second, independent oracle and gives the
+       expected output of a failure;
+    B  for a sample, real binary vs the composed code-level MODEL `program_m` at the run's block
+       size under the schedule recorded by hook H1 (Corr/C01p.model_bad)."""
+    import time
+    t_stage = time.time()
+    rng = ctx.rng
+    n_inv = 48 if quick else 600
+    n_model = 14 if quick else 120
+    inps = [mu.prog_input(rng, k, scratch) for k in range(n_inv)]
+    plan_pool = [None, None, "seed=%d,max_us=300" % rng.randrange(1 << 30), "seed=%d,max_us=1500,poll_us=300" % rng.randrange(1 << 30),
+                 "seed=%d,max_us=0,poll_us=1500" % rng.randrange(1 << 30)]
+    from concurrent.futures import ThreadPoolExecutor
+
+    def one(k):
+        inp = inps[k]
+        env = mu.prog_env(inp)
+        plan = plan_pool[k % len(plan_pool)]
+        if plan:
+            env["S4_VERIF_PLAN"] = plan
+        tp = os.path.join(scratch, "ptrace-%04d.txt" % k)
+        if os.path.exists(tp):
+            os.remove(tp)
+        env["S4_VERIF_TRACE"] = tp
+        rc, out, err = vlib.run_s4(mu.prog_argv(inp), timeout=60, env=env)
+        return dict(rc=rc, stdout=out, stderr=err, plan=plan, trace=mu.parse_trace(tp))
+    with ThreadPoolExecutor(max_workers=8) as ex:
+        results = list(ex.map(one, range(n_inv)))
+    cases, fail_n, py_fail = [], 0, {}
+    for k, (inp, res) in enumerate(zip(inps, results)):
+        exp, nums, order = mu.prog_expected(inp)
+        got = mu.prog_summary_nums(res["stderr"]) if (inp["summary"] and res["rc"] == 0) else []
+        res["nums"], res["exp"], res["exp_nums"], res["order"] = got, exp, nums, order
+        cases.append(mu.prog_coq_case(inp, res["stdout"], got))
+        if res["rc"] != 0 or res["stdout"] != exp or (inp["summary"] and got != nums):
+            py_fail[k] = True
+    okc, bad, logc = mu.prog_eval(os.path.join(vlib.CACHE, "cases", PROP, "pspec"), "spec_bad", cases, "spec_case")
+    if not okc:
+        ctx.obligation_broken("spec-evaluation", "coqc on whole-invocation cases (Corr/C01p.spec_bad)", logc)
+        bad = {}
+    out_of_gate = sum(1 for c in bad.values() if c == 8)
+    for k, code in sorted(bad.items()):
+        if code == 7:
+            ctx.obligation_broken("generator", "whole-invocation case outside Program.domain", json.dumps(mu.prog_describe(inps[k])))
+    for k, (inp, res) in enumerate(zip(inps, results)):
+        code = bad.get(k, 0)
+        if code in (7, 8):
+            continue                      # 8: stage 1 of the model rejects a file at this block size (C12 findings)
+        if res["rc"] == 124:
+            fail_n += 1
+            ctx.failure(mu.prog_save_failure(PROP, ctx.seed, inp, res["plan"], fail_n), "terminates", "no exit within 60 s")
+        elif res["rc"] != 0:
+            fail_n += 1
+            ctx.failure(mu.prog_save_failure(PROP, ctx.seed, inp, res["plan"], fail_n), "exit status 0",
+                        "exit status %d; stderr %r" % (res["rc"], res["stderr"][-300:].decode("utf-8", "replace")))
+        elif code != 0 and okc:
+            fail_n += 1
+            if code >= 1000:
+                at = code - 1000
+                exp_d = dict(stdout_first_difference_at_byte=at, expected_around=res["exp"][max(0, at - 60):at + 60].decode("utf-8", "replace"),
+                             expected_bytes=len(res["exp"]))
+                got_d = dict(got_around=res["stdout"][max(0, at - 60):at + 60].decode("utf-8", "replace"), got_bytes=len(res["stdout"]))
+            else:
+                name = ["Printed bytes", "Printed lines", "Printed syslines", "Datetime printed first (s)", "Datetime printed last (s)"][code - 2]
+                exp_d = dict(summary=name, expected=(res["exp_nums"][code - 2]), all_expected=res["exp_nums"])
+                got_d = dict(summary=name, got=(res["nums"][code - 2] if len(res["nums"]) > code - 2 else None), all_got=res["nums"])
+            ctx.failure(mu.prog_save_failure(PROP, ctx.seed, inp, res["plan"], fail_n, extra=dict(spec_code=code)), exp_d, got_d)
+            if k not in py_fail:
+                ctx.obligation_broken("oracle", "Program.program_spec (Coq) and the python rendering disagree on a whole invocation",
+                                      json.dumps(dict(case=mu.prog_describe(inp), spec_code=code)))
+        elif code == 0 and k in py_fail and okc:
+            ctx.obligation_broken("oracle", "the python rendering differs from the binary although Program.program_spec agrees",
+                                  json.dumps(dict(case=mu.prog_describe(inp), got=res["stdout"][:300].decode("utf-8", "replace"),
+                                                  expected=res["exp"][:300].decode("utf-8", "replace"), nums=[res["nums"], res["exp_nums"]])))
+    # ---- B: the composed code-level model under the recorded schedule
+    sample = [k for k in range(n_inv) if results[k]["rc"] == 0 and bad.get(k, 0) != 8][:n_model]
+    mcases = []
+    for k in sample:
+        if results[k]["trace"] is None:
+            ctx.obligation_broken("correspondence", "no coordinator trace written (hook H1) for a whole invocation", json.dumps(mu.prog_describe(inps[k])))
+            break
+        mcases.append("(%s, %s)" % (cases[k], mu.pairs(results[k]["trace"])))
+    okm, mbad, logm = mu.prog_eval(os.path.join(vlib.CACHE, "cases", PROP, "pmodel"), "model_bad", mcases, "model_case")
+    if not okm:
+        ctx.obligation_broken("correspondence", "model evaluation (coqc on whole-invocation cases, Corr/C01p.model_bad)", logm)
+    for j, code in sorted(mbad.items())[:1]:
+        if code == 8:
+            continue
+        k = sample[j]
+        ctx.obligation_broken("correspondence", "s4 whole invocation vs Model.Program.program_m (block-wise readers + search + coordinator under the recorded schedule + printer + summary)",
+                              json.dumps(dict(case=mu.prog_describe(inps[k]), plan=results[k]["plan"], code=code,
+                                              meaning="1000+k stdout differs at byte k; 2-6 summary number differs; 21 a worker model ended abnormally; 22 recorded schedule not an execution of Model/Coord; 23 schedule not final",
+                                              disagreements=len(mbad))))
+    # ---- evidence
+    def cross_ties(inp):
+        seen = {}
+        for i, s in enumerate(inp["sources"]):
+            for m in s["msgs"]:
+                if mu.prog_in_window(inp, m["inst"]):
+                    seen.setdefault(m["inst"], set()).add(i)
+        return sum(1 for v in seen.values() if len(v) > 1)
+    nontriv = set()
+    for inp, res in zip(inps, results):
+        deco = bool(inp["fmode"] or inp["zone"] or inp["fmt"] or inp["sep"][0])
+        if len(res["order"]) >= 2 and deco:
+            nontriv.add(json.dumps([mu.prog_argv(inp)[:-len(inp["sources"])], [[m["inst"] for m in s["msgs"]] for s in inp["sources"]]]))
+    hist_bs, hist_n = {}, {}
+    for inp in inps:
+        hist_bs[str(inp["bs"] or 65536)] = hist_bs.get(str(inp["bs"] or 65536), 0) + 1
+        hist_n[len(inp["sources"])] = hist_n.get(len(inp["sources"]), 0) + 1
+    return dict(
+        whole_invocations=n_inv, whole_invocations_distinct_nontrivial=len(nontriv),
+        whole_invocation_rule="1-5 chronological text files (plain / .gz, ISO timestamps with 6-9 fractional digits and numeric offsets, tie-heavy instants shared across files, 30% multi-line messages, 45% of the files without final newline) x random options (-n/-p, -w, -u/-l(TZ)/-z, -d from 6 formats, 5 prepend separators, 7 separators with escapes) x --blocksz {64,65,100,127,128,500,4096,default} x window (-a and/or -b on an instant present, +-1 us, +-1 ms; 45% none) x --summary (70%) x 5 planned schedules; compared: stdout bytes and Printed bytes/lines/syslines + first/last printed second vs Program.program_spec by vm_compute (and vs a python rendering); sample also vs Program.program_m under the recorded recv/print trace; non-trivial = at least 2 printed messages and a decoration option",
+        whole_invocation_spec_disagreements=sum(1 for c in bad.values() if c not in (7, 8)), whole_invocation_python_disagreements=len(py_fail),
+        whole_invocations_skipped_gate_rejects_at_blocksz=out_of_gate,
+        whole_invocation_model_cases=len(mcases), whole_invocation_model_disagreements=sum(1 for c in mbad.values() if c != 8),
+        whole_invocations_with_window=sum(1 for i in inps if i["lo"] is not None or i["hi"] is not None),
+        whole_invocations_with_empty_selection=sum(1 for r in results if not r["order"]),
+        whole_invocations_with_cross_file_ties_in_window=sum(1 for i in inps if cross_ties(i)),
+        whole_invocations_with_multiline_printed=sum(1 for i, r in zip(inps, results) if any(i["sources"][a]["msgs"][[p for p, m in enumerate(i["sources"][a]["msgs"]) if mu.prog_in_window(i, m["inst"])][b]]["cont"] for a, b in r["order"])),
+        whole_invocations_with_supplied_newline=sum(1 for i in inps if any((not s["final_nl"]) and s["msgs"] and mu.prog_in_window(i, s["msgs"][-1]["inst"]) for s in i["sources"])),
+        whole_invocations_with_gz=sum(1 for i in inps if any(s["container"] == "gz" for s in i["sources"])),
+        whole_invocations_with_summary=sum(1 for i in inps if i["summary"]),
+        whole_invocation_blocksz_histogram=hist_bs, whole_invocation_files_histogram=hist_n,
+        whole_invocation_stage_wall_s=round(time.time() - t_stage, 1),
+        whole_invocation_sample=mu.prog_describe(inps[0]))
+
+
 def run(ctx):
     quick = ctx.quick()
     n_inputs = 40 if quick else 500
@@ -74,7 +210,7 @@ def run(ctx):
     n_subus = 12 if quick else 150
     max_src = 8 if quick else 32
     # ---- A
-    vlib.proof_stage(ctx, "Props/C01.v", ["coord"], extra_targets=["Corr/C01.vo"])
+    vlib.proof_stage(ctx, "Props/C01.v", ["coord"], extra_targets=["Corr/C01.vo", "Corr/C01p.vo"])
     ok, log = vlib.build_s4()
     if not ok:
         ctx.obligation_broken("build", "s4 (hooked, release-like)", log)
@@ -201,6 +337,9 @@ def run(ctx):
                                               meaning="1-4 receive sequence not permitted by the model; 5 print/disconnect events differ from replay; 6 print order differs from merge",
                                               trace=results[ri]["trace"][:300], disagreements=len(tbad))))
 
+    # ---- P: whole invocations vs Program.program_spec (C) and Program.program_m (B)
+    prog_cov = whole_invocation_stage(ctx, scratch, quick)
+
     # ---- evidence
     gen_inputs = inputs[:n_gen]
     tie_info = [ties(inp) for inp in gen_inputs]
@@ -237,12 +376,14 @@ def run(ctx):
         inputs_with_nanosecond_instants=sum(1 for inp in gen_inputs if any(x % 1000 for l in mu.instants(inp) for x in l)),
         messages_total=sum(len(l) for ii in set(meta) for l in results[meta.index(ii)]["srcs"]),
         max_run_wall_s=round(max(r["wall"] for r in results), 3))
+    ctx.coverage.update(prog_cov)
     ctx.assumptions += [
         "the generator's instant of a timestamp text (civil time minus offset) is what the text denotes (cross-checked against s4's own -u -d '%s%.9f' rendering in the option sets that include it; C04 is the property about this)",
         "stdout lines are attributed to sources by the token sNNmPPPP the generator writes into every message and, with -n/-p, by the prepended name; for utmp/evtx/journal fixtures by the prepended path, and their instants are the ones s4 prints (-u -d '%s%.9f'), i.e. the check there is that the print order is the merge of the instants s4 itself reports",
         "crossbeam-channel is FIFO per channel, send blocks only when full, select returns some ready channel (oracle contract of Model/Coord.v)",
         "PathId = argument position (all generated files are valid sources); for a directory argument PathId = sorted name order",
         "planned delays (S4_VERIF_PLAN) steer but do not enumerate the OS schedule; the theorems quantify over all schedules",
+        "whole-invocation stage: the timestamp oracle `dated` of Program.program_spec / program_m is the generator's table (first line of every message -> its instant; continuation lines contain no two consecutive digits, so no pattern dates them); the prepended name has as many characters as display columns (ASCII); year-bearing notation only (process_missing_year is outside the composed model); a case in which stage 1 of the MODEL rejects a file at the run's block size is not compared (C12 findings F3a-c), its count is in the evidence",
     ]
     return ctx.finish()
 
